@@ -113,7 +113,7 @@ package gldap
 //@   ensures  err == nil ==> result0 == reqTypeOf(op(p.Packet).Tag)
 //@   panics false
 //@   modifies packet.validated
-//@   tags C01
+//@   tags C01 C10
 //@   safety C02
 
 //@ func (*gldap.packet).extendedOperationName
@@ -275,7 +275,7 @@ package gldap
 //@   ensures  err == nil ==> !isNilIface(result0) && iref(result0) != 0 && old(reqPktOK(p.Packet) && supportedTag(op(p.Packet).Tag) && isInt(kid(p.Packet,0)))
 //@   ensures  err == nil ==> (typeIs(result0, *SimpleBindMessage) == old(op(p.Packet).Tag == ApplicationBindRequest)) && (typeIs(result0, *SearchMessage) == old(op(p.Packet).Tag == ApplicationSearchRequest))
 //@   ensures  err == nil ==> (typeIs(result0, *ExtendedOperationMessage) == old(op(p.Packet).Tag == ApplicationExtendedRequest)) && (typeIs(result0, *ModifyMessage) == old(op(p.Packet).Tag == ApplicationModifyRequest))
-//@   ensures  err == nil ==> (typeIs(result0, *AddMessage) == old(op(p.Packet).Tag == ApplicationAddRequest)) && (typeIs(result0, *DeleteMessage) == old(op(p.Packet).Tag == ApplicationDelRequest)) && (typeIs(result0, *UnbindMessage) == old(op(p.Packet).Tag == ApplicationUnbindRequest))
+//@   ensures[C01,C10] err == nil ==> (typeIs(result0, *AddMessage) == old(op(p.Packet).Tag == ApplicationAddRequest)) && (typeIs(result0, *DeleteMessage) == old(op(p.Packet).Tag == ApplicationDelRequest)) && (typeIs(result0, *UnbindMessage) == old(op(p.Packet).Tag == ApplicationUnbindRequest))
 //@   ensures  err == nil && typeIs(result0, *ExtendedOperationMessage) ==> result0.(*ExtendedOperationMessage).id == old(intval(kid(p.Packet,0))) && result0.(*ExtendedOperationMessage).Name == old(str(kid(op(p.Packet),0)))
 //@   ensures  err == nil && typeIs(result0, *DeleteMessage) ==> result0.(*DeleteMessage).id == old(intval(kid(p.Packet,0))) && result0.(*DeleteMessage).DN == old(str(op(p.Packet))) && len(result0.(*DeleteMessage).Controls) == old(nctl(p.Packet))
 //@   ensures  err == nil && typeIs(result0, *UnbindMessage) ==> result0.(*UnbindMessage).id == old(intval(kid(p.Packet,0)))
@@ -302,7 +302,7 @@ package gldap
 //@   ensures  err == nil ==> !isNilIface(result0.message) && iref(result0.message) != 0 && old(reqPktOK(p.Packet) && supportedTag(op(p.Packet).Tag) && isInt(kid(p.Packet,0)))
 //@   ensures  err == nil ==> (typeIs(result0.message, *SimpleBindMessage) == old(op(p.Packet).Tag == ApplicationBindRequest)) && (typeIs(result0.message, *SearchMessage) == old(op(p.Packet).Tag == ApplicationSearchRequest))
 //@   ensures  err == nil ==> (typeIs(result0.message, *ExtendedOperationMessage) == old(op(p.Packet).Tag == ApplicationExtendedRequest)) && (typeIs(result0.message, *ModifyMessage) == old(op(p.Packet).Tag == ApplicationModifyRequest))
-//@   ensures  err == nil ==> (typeIs(result0.message, *AddMessage) == old(op(p.Packet).Tag == ApplicationAddRequest)) && (typeIs(result0.message, *DeleteMessage) == old(op(p.Packet).Tag == ApplicationDelRequest)) && (typeIs(result0.message, *UnbindMessage) == old(op(p.Packet).Tag == ApplicationUnbindRequest))
+//@   ensures[C01,C06,C10] err == nil ==> (typeIs(result0.message, *AddMessage) == old(op(p.Packet).Tag == ApplicationAddRequest)) && (typeIs(result0.message, *DeleteMessage) == old(op(p.Packet).Tag == ApplicationDelRequest)) && (typeIs(result0.message, *UnbindMessage) == old(op(p.Packet).Tag == ApplicationUnbindRequest))
 //@   ensures  err == nil && typeIs(result0.message, *ExtendedOperationMessage) ==> result0.message.(*ExtendedOperationMessage).id == old(intval(kid(p.Packet,0))) && result0.message.(*ExtendedOperationMessage).Name == old(str(kid(op(p.Packet),0)))
 //@   ensures  err == nil && typeIs(result0.message, *DeleteMessage) ==> result0.message.(*DeleteMessage).id == old(intval(kid(p.Packet,0))) && result0.message.(*DeleteMessage).DN == old(str(op(p.Packet))) && len(result0.message.(*DeleteMessage).Controls) == old(nctl(p.Packet))
 //@   ensures  err == nil && typeIs(result0.message, *UnbindMessage) ==> result0.message.(*UnbindMessage).id == old(intval(kid(p.Packet,0)))
@@ -310,7 +310,7 @@ package gldap
 //@   ensures  err == nil && typeIs(result0.message, *SearchMessage) ==> searchMatches(result0.message.(*SearchMessage), p.Packet)
 //@   ensures  err == nil && typeIs(result0.message, *ModifyMessage) ==> modifyMatches(result0.message.(*ModifyMessage), p.Packet)
 //@   ensures  err == nil && typeIs(result0.message, *AddMessage) ==> addMatches(result0.message.(*AddMessage), p.Packet)
-//@   ensures  err == nil ==> result0.routeOp == routeOpOf(result0.message)
+//@   ensures[C01,C06,C10] err == nil ==> result0.routeOp == routeOpOf(result0.message)
 //@   ensures  err == nil && typeIs(result0.message, *ExtendedOperationMessage) ==> result0.extendedName == result0.message.(*ExtendedOperationMessage).Name
 //@   ensures  err == nil && !typeIs(result0.message, *ExtendedOperationMessage) ==> result0.extendedName == ""
 //@   ensures  err != nil ==> result0 == nil
@@ -349,14 +349,14 @@ package gldap
 //@   ensures  len(bytes) > 0 && bytes[0] > 128 && bytes[0] < 137 && len(bytes) >= 1 + (bytes[0] - 128) ==> err == nil
 //@   panics false
 //@   modifies nothing
-//@   tags C16
+//@   tags C16 C01
 //@ func gldap.ConvertString
 //@   ensures  err == nil ==> len(result0) == len(octetString)
 //@   ensures  forall(j, 0, len(octetString), wrapOK(octetString[j])) ==> err == nil
 //@   ensures  err == nil ==> forall(j, 0, len(octetString), wrapOK(octetString[j]) ==> len(result0[j]) == len(octetString[j]) - hdr(octetString[j]) && forall(i, 0, len(result0[j]), result0[j][i] == octetString[j][hdr(octetString[j]) + i]))
 //@   panics false
 //@   modifies nothing
-//@   tags C16
+//@   tags C16 C01
 //@ loop 1
 //@   invariant len(converted) == rangeindex + 1
 //@   invariant forall(j, 0, len(converted), wrapOK(octetString[j]) ==> len(converted[j]) == len(octetString[j]) - hdr(octetString[j]) && forall(i, 0, len(converted[j]), converted[j][i] == octetString[j][hdr(octetString[j]) + i]))
@@ -870,6 +870,7 @@ package gldap
 // A-USER: the OnClose callback does not panic.
 //@ functype gldap.OnCloseHandler
 //@   params f OnCloseHandler, connectionID int
+//@   callernolocks C12
 //@   sets G_onclose[connectionID] = G_onclose[connectionID] + 1
 //@   sets G_clock[0] = G_clock[0] + 1
 //@   sets G_tonclose[connectionID] = G_clock[0]
@@ -941,8 +942,11 @@ package gldap
 
 // A-USER: what a handler may do to gldap's state: write responses through its
 // ResponseWriter, upgrade the connection with Request.StartTLS; it may panic.
+// C06: gldap never runs a handler while it still holds a lock it took itself (the route table's, the
+// connection's, the writer's): every other request needing that lock would wait for the handler.
 //@ functype gldap.HandlerFunc
 //@   params f HandlerFunc, w *ResponseWriter, r *Request
+//@   callernolocks C06
 //@   requires f != nil && w != nil && r != nil && wOK(w) && !held(w.writerMu) && reqOK(r)
 //@   exit     r.conn != nil ==> connIO(r.conn)
 //@   exit     unchanged(G_held) && unchanged(G_rheld) && unchanged(G_wgcnt)
@@ -1103,7 +1107,7 @@ package gldap
 //@   ensures  c.grace < 0 && c.expire < 0 && c.error < 0 ==> nkids(result) == 1
 //@   panics false
 //@   modifies all(ber.Packet), cell(*ber.Packet), G_bufdata, G_pktnew
-//@   tags C14
+//@   tags C14 C04
 // RFC 4511 4.1.11 Control ::= SEQUENCE { controlType LDAPOID, criticality BOOLEAN DEFAULT FALSE, controlValue OCTET STRING OPTIONAL }
 //@ pure isBool(p *ber.Packet) bool = isU(p, ber.TypePrimitive, ber.TagBoolean)
 //@ func (*gldap.ControlString).Encode
@@ -1114,53 +1118,57 @@ package gldap
 //@   ensures  c.ControlValue != "" ==> isOct(kid(result, nkids(result)-1)) && strval(kid(result, nkids(result)-1)) == c.ControlValue
 //@   panics false
 //@   modifies all(ber.Packet), cell(*ber.Packet), G_bufdata, G_pktnew
-//@   tags C14
+//@   tags C14 C04
 //@ func (*gldap.ControlManageDsaIT).Encode
 //@   requires c != nil
 //@   ensures  result != nil && isSeq(result) && isOct(kid(result,0)) && strval(kid(result,0)) == ControlTypeManageDsaIT
 //@   ensures  nkids(result) == 1 + cond(c.Criticality, 1, 0) && (c.Criticality ==> isBool(kid(result,1)) && boolval(kid(result,1)))
 //@   panics false
 //@   modifies all(ber.Packet), cell(*ber.Packet), G_bufdata, G_pktnew
-//@   tags C14
+//@   tags C14 C04
 // RFC 2696: pagedResultsControl value ::= SEQUENCE { size INTEGER, cookie OCTET STRING }, wrapped in the controlValue OCTET STRING
 //@ func (*gldap.ControlPaging).Encode
 //@   requires c != nil
 //@   ensures  result != nil && isSeq(result) && nkids(result) == 2 && isOct(kid(result,0)) && strval(kid(result,0)) == ControlTypePaging
 //@   ensures  isOct(kid(result,1)) && nkids(kid(result,1)) == 1 && isSeq(kid(kid(result,1),0)) && nkids(kid(kid(result,1),0)) == 2
 //@   ensures  isInt(kid(kid(kid(result,1),0),0)) && intval(kid(kid(kid(result,1),0),0)) == int64(c.PagingSize) && isOct(kid(kid(kid(result,1),0),1))
+//@   ensures  G_bufdata[kid(kid(kid(result,1),0),1).Data] == bytestr(c.Cookie)
+//@   ensures  G_bufdata[kid(kid(result,1),0).Data] == pktbytes(kid(kid(kid(result,1),0),0)) + pktbytes(kid(kid(kid(result,1),0),1))
+//@   ensures  G_bufdata[kid(result,1).Data] == pktbytes(kid(kid(result,1),0))
+//@   ensures  G_bufdata[result.Data] == pktbytes(kid(result,0)) + pktbytes(kid(result,1))
 //@   panics false
 //@   modifies all(ber.Packet), cell(*ber.Packet), G_bufdata, G_pktnew
-//@   tags C14
+//@   tags C14 C04
 //@ func (*gldap.ControlMicrosoftNotification).Encode
 //@   requires c != nil
 //@   ensures  result != nil && isSeq(result) && nkids(result) == 1 && isOct(kid(result,0)) && strval(kid(result,0)) == ControlTypeMicrosoftNotification
 //@   panics false
 //@   modifies all(ber.Packet), cell(*ber.Packet), G_bufdata, G_pktnew
-//@   tags C14
+//@   tags C14 C04
 //@ func (*gldap.ControlMicrosoftServerLinkTTL).Encode
 //@   requires c != nil
 //@   ensures  result != nil && isSeq(result) && nkids(result) == 1 && isOct(kid(result,0)) && strval(kid(result,0)) == ControlTypeMicrosoftServerLinkTTL
 //@   panics false
 //@   modifies all(ber.Packet), cell(*ber.Packet), G_bufdata, G_pktnew
-//@   tags C14
+//@   tags C14 C04
 //@ func (*gldap.ControlMicrosoftShowDeleted).Encode
 //@   requires c != nil
 //@   ensures  result != nil && isSeq(result) && nkids(result) == 1 && isOct(kid(result,0)) && strval(kid(result,0)) == ControlTypeMicrosoftShowDeleted
 //@   panics false
 //@   modifies all(ber.Packet), cell(*ber.Packet), G_bufdata, G_pktnew
-//@   tags C14
+//@   tags C14 C04
 //@ func (*gldap.ControlVChuPasswordMustChange).Encode
 //@   requires c != nil
 //@   ensures  result != nil && isSeq(result) && nkids(result) == 1 && isOct(kid(result,0)) && strval(kid(result,0)) == ControlTypeVChuPasswordMustChange
 //@   panics false
 //@   modifies all(ber.Packet), cell(*ber.Packet), G_bufdata, G_pktnew
-//@   tags C14
+//@   tags C14 C04
 //@ func (*gldap.ControlVChuPasswordWarning).Encode
 //@   requires c != nil
 //@   ensures  result != nil && isSeq(result) && nkids(result) == 2 && isOct(kid(result,0)) && strval(kid(result,0)) == ControlTypeVChuPasswordWarning && isOct(kid(result,1))
 //@   panics false
 //@   modifies all(ber.Packet), cell(*ber.Packet), G_bufdata, G_pktnew
-//@   tags C14
+//@   tags C14 C04
 //@ func gldap.encodeControls
 //@   requires forall(j, 0, len(controls), !isNilIface(controls[j]) && iref(controls[j]) != 0)
 //@   ensures  result != nil && fresh(result) && result.ClassType == ber.ClassContext && result.TagType == ber.TypeConstructed && result.Tag == 0 && nkids(result) == len(controls)
